@@ -412,11 +412,18 @@ func tryReplay(prop string, o *Obligation, u *Unit, vals map[string]string, repl
 	var decls, args, olds []string
 	params := map[string]bool{}
 	recv := ""
+	enumerate := vals == nil
 	for i, in := range u.inputs {
 		if in.Typ == nil {
 			return "", false
 		}
-		gv, ok := u.goValue(vals, in, qual)
+		var gv string
+		var ok bool
+		if enumerate {
+			gv, ok = enumExpr(in, i, qual)
+		} else {
+			gv, ok = u.goValue(vals, in, qual)
+		}
 		if !ok {
 			return "", false
 		}
@@ -466,13 +473,22 @@ func tryReplay(prop string, o *Obligation, u *Unit, vals map[string]string, repl
 			}
 		}
 	}
-	fmt.Fprintf(&body, "\nfunc %s(t *testing.T) {\n%s\n%s\n", testName, strings.Join(decls, "\n"), strings.Join(olds, "\n"))
+	if enumerate {
+		fmt.Fprintf(&body, "\nvar gocvEnumBytes = [][]byte{nil, {}, {0}, {0x61}, {0xff}, {0x61, 0x62}, {0x61, 0xff}, {0xff, 0xff}, {0x61, 0x2e, 0x30}, {0x61, 0x62, 0xff}, {0x62}, {0x61, 0xff, 0xff}}\nvar gocvEnumInts = []int64{0, 1, -1, 2, 7, 255, 256, -9223372036854775808, 9223372036854775807, 100000000}\n")
+		fmt.Fprintf(&body, "\nfunc %s(t *testing.T) {\n\tfor gocvCase := 0; gocvCase < 1728; gocvCase++ {\n\tfunc() {\n%s\n%s\n", testName, strings.Join(decls, "\n"), strings.Join(olds, "\n"))
+	} else {
+		fmt.Fprintf(&body, "\nfunc %s(t *testing.T) {\n%s\n%s\n", testName, strings.Join(decls, "\n"), strings.Join(olds, "\n"))
+	}
 	if isSafety {
 		fmt.Fprintf(&body, "\tdefer func() {\n\t\tif r := recover(); r != nil {\n\t\t\tt.Fatalf(\"VIOLATION reproduced: %s: the real code panics: %%v\", r)\n\t\t}\n\t}()\n\t%s\n", o.Name, call)
 		for _, l := range lhs {
 			fmt.Fprintf(&body, "\t_ = %s\n", l)
 		}
-		body.WriteString("\tt.Log(\"no panic on this input\")\n}\n")
+		if enumerate {
+			body.WriteString("\t}()\n\t}\n}\n")
+		} else {
+			body.WriteString("\tt.Log(\"no panic on this input\")\n}\n")
+		}
 	} else {
 		var clause *SExpr
 		for k, en := range u.Contract.Ensures {
@@ -492,7 +508,11 @@ func tryReplay(prop string, o *Obligation, u *Unit, vals map[string]string, repl
 		for _, l := range lhs {
 			fmt.Fprintf(&body, "\t_ = %s\n", l)
 		}
-		fmt.Fprintf(&body, "\tif !(%s) {\n\t\tt.Fatalf(\"VIOLATION reproduced: %s: the real code breaks the clause on this input\")\n\t}\n\tt.Log(\"clause holds on this input\")\n}\n", oracle, o.Name)
+		if enumerate {
+			fmt.Fprintf(&body, "\tif !(%s) {\n\t\tt.Fatalf(\"VIOLATION reproduced: %s: the real code breaks the clause on enumerated input #%%d\", gocvCase)\n\t}\n\t}()\n\t}\n}\n", oracle, o.Name)
+		} else {
+			fmt.Fprintf(&body, "\tif !(%s) {\n\t\tt.Fatalf(\"VIOLATION reproduced: %s: the real code breaks the clause on this input\")\n\t}\n\tt.Log(\"clause holds on this input\")\n}\n", oracle, o.Name)
+		}
 	}
 	// imports used by the oracle / input literals (package-qualified names)
 	text := body.String()
@@ -560,4 +580,30 @@ func hasQualifiedUse(text, name string) bool {
 		}
 		i = j + 1
 	}
+}
+
+// enumExpr: the i-th input as an expression over the enumeration counter gocvCase (bounded search
+// for a failing input: byte strings up to length 3 over {0x00,'a','b','.','0',0xff}, a few integers).
+func enumExpr(in InputSym, i int, qual func(*types.Package) string) (string, bool) {
+	div := 1
+	for k := 0; k < i; k++ {
+		div *= 12
+	}
+	idx := fmt.Sprintf("(gocvCase/%d)%%12", div)
+	switch t := in.Typ.Underlying().(type) {
+	case *types.Basic:
+		switch {
+		case t.Info()&types.IsBoolean != 0:
+			return "(" + idx + ")%2 == 0", true
+		case t.Info()&types.IsInteger != 0:
+			return fmt.Sprintf("%s(gocvEnumInts[(%s)%%len(gocvEnumInts)])", types.TypeString(in.Typ, qual), idx), true
+		case t.Info()&types.IsString != 0:
+			return "string(gocvEnumBytes[" + idx + "])", true
+		}
+	case *types.Slice:
+		if b, ok := t.Elem().Underlying().(*types.Basic); ok && b.Kind() == types.Uint8 {
+			return "append([]byte(nil), gocvEnumBytes[" + idx + "]...)", true
+		}
+	}
+	return "", false
 }
